@@ -2,15 +2,21 @@ package main
 
 import (
 	"bytes"
+	"encoding/json"
 	"fmt"
 	"os"
 	"os/exec"
 	"path/filepath"
+	"regexp"
 	"strings"
 )
 
-// checkGenerator re-runs the repository's own generator (cmd/) on a scratch copy of the tree under
-// check and compares the three generated files byte for byte with the committed ones.
+// checkGenerator re-runs the repository's own generator (cmd/) on scratch copies of the tree under check:
+//
+//  1. on the committed JSON: the three generated files must be reproduced byte for byte;
+//  2. on perturbed JSON ("any future refresh or hand edit"): false flags omitted, entries re-ordered, new active /
+//     deprecated / exception entries added, minimal entries placed after deprecated ones. The ids the generator emits are
+//     compared with the lists the harness derives from the same JSON with its own per-entry decoding.
 func checkGenerator(r *run) {
 	scratch, err := os.MkdirTemp("", "verif-c12-")
 	if err != nil {
@@ -18,24 +24,28 @@ func checkGenerator(r *run) {
 		return
 	}
 	defer os.RemoveAll(scratch)
-	// copy the working tree without .git
 	cp := exec.Command("bash", "-c", fmt.Sprintf("cd %q && tar --exclude=.git -cf - . | tar -xf - -C %q", repoDir, scratch))
 	if out, err := cp.CombinedOutput(); err != nil {
 		r.inconcl = append(r.inconcl, "cannot copy the tree: "+err.Error()+" "+string(out))
 		return
 	}
-	gen := exec.Command("go", "run", ".", "extract", "-l", "-e")
-	gen.Dir = filepath.Join(scratch, "cmd")
-	gen.Env = append(goEnv(), "GOFLAGS=-mod=mod")
-	var buf bytes.Buffer
-	gen.Stdout = &buf
-	gen.Stderr = &buf
-	if err := gen.Run(); err != nil {
-		r.addViolation("generator-fails", "C12.generator", "the generator (cd cmd && go run . extract -l -e) fails on the tree: "+trunc(buf.String(), 800), mustJSON(map[string]string{"kind": "generator"}), 1)
+	runGen := func() (string, error) {
+		gen := exec.Command("go", "run", ".", "extract", "-l", "-e")
+		gen.Dir = filepath.Join(scratch, "cmd")
+		gen.Env = append(goEnv(), "GOFLAGS=-mod=mod")
+		var buf bytes.Buffer
+		gen.Stdout = &buf
+		gen.Stderr = &buf
+		err := gen.Run()
+		return buf.String(), err
+	}
+	if out, err := runGen(); err != nil {
+		r.addViolation("generator-fails", "C12.generator", "the generator (cd cmd && go run . extract -l -e) fails on the tree: "+trunc(out, 800), mustJSON(map[string]string{"kind": "generator"}), 1)
 		return
 	}
 	r.evals++
-	for _, f := range []string{"get_licenses.go", "get_deprecated.go", "get_exceptions.go"} {
+	files := []string{"get_licenses.go", "get_deprecated.go", "get_exceptions.go"}
+	for _, f := range files {
 		rel := filepath.Join("spdxexp", "spdxlicenses", f)
 		a, err1 := os.ReadFile(filepath.Join(repoDir, rel))
 		b, err2 := os.ReadFile(filepath.Join(scratch, rel))
@@ -62,6 +72,172 @@ func checkGenerator(r *run) {
 				}
 			}
 			r.addViolation("generator-diff:"+f, "C12.generator", fmt.Sprintf("re-running the generator does not reproduce %s byte for byte; %s", rel, diff), mustJSON(map[string]string{"kind": "generator", "file": f}), 1)
+		}
+	}
+
+	// ---- perturbed JSON ---------------------------------------------------------------------
+	var lic, exc map[string]any
+	lb, err1 := os.ReadFile(filepath.Join(repoDir, "cmd", "licenses.json"))
+	eb, err2 := os.ReadFile(filepath.Join(repoDir, "cmd", "exceptions.json"))
+	if err1 != nil || err2 != nil || json.Unmarshal(lb, &lic) != nil || json.Unmarshal(eb, &exc) != nil {
+		return // the worker's JSON monitor reports unreadable / undecodable source data
+	}
+	type variant struct {
+		name  string
+		apply func(l, e []any) ([]any, []any)
+	}
+	clone := func(entries []any) []any {
+		out := make([]any, len(entries))
+		for i, x := range entries {
+			m := map[string]any{}
+			for k, v := range x.(map[string]any) {
+				m[k] = v
+			}
+			out[i] = m
+		}
+		return out
+	}
+	firstDeprecated := func(entries []any) int {
+		for i, x := range entries {
+			if d, _ := x.(map[string]any)["isDeprecatedLicenseId"].(bool); d {
+				return i
+			}
+		}
+		return -1
+	}
+	insertAfter := func(entries []any, at int, x any) []any {
+		out := append([]any{}, entries[:at+1]...)
+		out = append(out, x)
+		return append(out, entries[at+1:]...)
+	}
+	variants := []variant{
+		{"omit-false-flags", func(l, e []any) ([]any, []any) {
+			for _, list := range [][]any{l, e} {
+				for _, x := range list {
+					m := x.(map[string]any)
+					if d, ok := m["isDeprecatedLicenseId"].(bool); ok && !d {
+						delete(m, "isDeprecatedLicenseId")
+					}
+				}
+			}
+			return l, e
+		}},
+		{"reversed-order", func(l, e []any) ([]any, []any) {
+			for _, list := range [][]any{l, e} {
+				for i, j := 0, len(list)-1; i < j; i, j = i+1, j-1 {
+					list[i], list[j] = list[j], list[i]
+				}
+			}
+			return l, e
+		}},
+		{"new-entries", func(l, e []any) ([]any, []any) {
+			l = append(l, map[string]any{"licenseId": "Zz-Verif-New-1.0", "name": "new active", "isDeprecatedLicenseId": false, "referenceNumber": 9001, "seeAlso": []any{}, "isOsiApproved": false, "reference": "x", "detailsUrl": "y"})
+			l = append(l, map[string]any{"licenseId": "Zz-Verif-Old-1.0", "name": "new deprecated", "isDeprecatedLicenseId": true, "referenceNumber": 9002, "seeAlso": []any{}, "isOsiApproved": false, "reference": "x", "detailsUrl": "y"})
+			e = append(e, map[string]any{"licenseExceptionId": "Zz-Verif-new-exception", "name": "new exception", "isDeprecatedLicenseId": false, "referenceNumber": 9003, "seeAlso": []any{}, "reference": "x", "detailsUrl": "y"})
+			e = append(e, map[string]any{"licenseExceptionId": "Zz-Verif-old-exception", "name": "deprecated exception", "isDeprecatedLicenseId": true, "referenceNumber": 9004, "seeAlso": []any{}, "reference": "x", "detailsUrl": "y"})
+			return l, e
+		}},
+		{"minimal-entry-after-deprecated", func(l, e []any) ([]any, []any) {
+			if at := firstDeprecated(l); at >= 0 {
+				l = insertAfter(l, at, map[string]any{"licenseId": "Zz-Verif-Minimal-1.0", "name": "only id and name"})
+			}
+			if at := firstDeprecated(e); at >= 0 {
+				e = insertAfter(e, at, map[string]any{"licenseExceptionId": "Zz-Verif-minimal-exception", "name": "only id and name"})
+			} else {
+				e = insertAfter(e, 0, map[string]any{"licenseExceptionId": "Zz-Verif-old2-exception", "name": "deprecated", "isDeprecatedLicenseId": true})
+				e = insertAfter(e, 1, map[string]any{"licenseExceptionId": "Zz-Verif-minimal-exception", "name": "only id and name"})
+			}
+			return l, e
+		}},
+	}
+	reEntry := regexp.MustCompile(`(?m)^\s*"([^"]*)",\s*$`)
+	emitted := func(f string) ([]string, error) {
+		b, err := os.ReadFile(filepath.Join(scratch, "spdxexp", "spdxlicenses", f))
+		if err != nil {
+			return nil, err
+		}
+		var ids []string
+		for _, m := range reEntry.FindAllStringSubmatch(string(b), -1) {
+			ids = append(ids, m[1])
+		}
+		return ids, nil
+	}
+	for _, v := range variants {
+		ls, _ := lic["licenses"].([]any)
+		es, _ := exc["exceptions"].([]any)
+		if ls == nil || es == nil {
+			return
+		}
+		l2, e2 := v.apply(clone(ls), clone(es))
+		// expected lists: every entry decoded on its own, absent flag = not deprecated
+		var wantAct, wantDep, wantExc []string
+		for _, x := range l2 {
+			m := x.(map[string]any)
+			id, _ := m["licenseId"].(string)
+			if d, _ := m["isDeprecatedLicenseId"].(bool); d {
+				wantDep = append(wantDep, id)
+			} else {
+				wantAct = append(wantAct, id)
+			}
+		}
+		for _, x := range e2 {
+			m := x.(map[string]any)
+			id, _ := m["licenseExceptionId"].(string)
+			if d, _ := m["isDeprecatedLicenseId"].(bool); !d {
+				wantExc = append(wantExc, id)
+			}
+		}
+		lm := map[string]any{}
+		for k, val := range lic {
+			lm[k] = val
+		}
+		lm["licenses"] = l2
+		em := map[string]any{}
+		for k, val := range exc {
+			em[k] = val
+		}
+		em["exceptions"] = e2
+		lj, _ := json.MarshalIndent(lm, "", "  ")
+		ej, _ := json.MarshalIndent(em, "", "  ")
+		os.WriteFile(filepath.Join(scratch, "cmd", "licenses.json"), lj, 0o644)
+		os.WriteFile(filepath.Join(scratch, "cmd", "exceptions.json"), ej, 0o644)
+		out, err := runGen()
+		r.evals++
+		r.counters["generator_variants_run"]++
+		if err != nil {
+			r.addViolation("generator-variant-fails:"+v.name, "C12.generator", fmt.Sprintf("the generator fails on a well-formed JSON refresh (%s): %s", v.name, trunc(out, 600)), mustJSON(map[string]string{"kind": "generator-variant", "variant": v.name}), 1)
+			continue
+		}
+		for fi, want := range [][]string{wantAct, wantDep, wantExc} {
+			got, err := emitted(files[fi])
+			if err != nil {
+				r.addViolation("generator-variant-output:"+v.name+":"+files[fi], "C12.generator", err.Error(), mustJSON(map[string]string{"kind": "generator-variant", "variant": v.name}), 1)
+				continue
+			}
+			r.counters["generator_variant_ids_compared"] += int64(len(want))
+			if strings.Join(got, "\n") != strings.Join(want, "\n") {
+				gs, ws := map[string]bool{}, map[string]bool{}
+				for _, x := range got {
+					gs[x] = true
+				}
+				for _, x := range want {
+					ws[x] = true
+				}
+				var missing, extra []string
+				for _, x := range want {
+					if !gs[x] && len(missing) < 5 {
+						missing = append(missing, x)
+					}
+				}
+				for _, x := range got {
+					if !ws[x] && len(extra) < 5 {
+						extra = append(extra, x)
+					}
+				}
+				r.addViolation("generator-variant:"+v.name+":"+files[fi], "C12.generator",
+					fmt.Sprintf("on a JSON refresh of kind %q the generator writes %d ids into %s where the JSON yields %d; missing e.g. %q, unexpected e.g. %q (same sets but another order if both are empty)", v.name, len(got), files[fi], len(want), missing, extra),
+					mustJSON(map[string]string{"kind": "generator-variant", "variant": v.name, "file": files[fi]}), 1)
+			}
 		}
 	}
 }
